@@ -23,6 +23,11 @@ CLAIMED = {
    text="Four enumerations per seeded scenario: sink faults (byte offset x {err, torn, err-after-full, short-noerr} x {sticky, one-shot}), truncation (strict prefixes), source faults during open+read (ReadAt call index x {err, short+err, short+EOF} x cut position incl. page boundaries) and source faults during WriteRowGroup copy. Oracle: an error is returned, or nothing was lost (bytes identical / every row delivered); never a nil Close with missing bytes, never a clean EOF with missing or altered rows, never a panic.",
    note="Exactly one fault per execution; after the first reported error the object is abandoned. (len(p), io.EOF) is only legal at the end of the source and is covered as a benign configuration, not as a fault.",
    ref="DESIGN.md §4 C14"),
+ "C17": dict(level="exploration", engine="E1 storage-sim + cross-build/process digests",
+   technique="deterministic simulation: seeded prior-life histories (close / abandon / injected sink failure) on a reused writer, buffer or sorting writer vs a fresh instance in a fresh deterministic pool; sha256 compared across processes, purego build and AVX-512/AVX2-disabled runs",
+   text="Seeded search over (target rows X, options) x histories of earlier lives of the same instance; the bytes written after Reset must equal those of a fresh instance, of a repeat in the warm process and of another goroutine. The digests of the first runs of each batch are recomputed in other processes by the purego build and by the accelerated build with AVX-512 / AVX2 disabled and must match.",
+   note="Map-typed values and encryption are not generated (excepted by the property). Every life and the reference use identical options. CPU variants limited to what this machine can emulate via GODEBUG.",
+   ref="DESIGN.md §4 C17"),
 }
 
 NOT_BUILT_YET = {}
